@@ -492,6 +492,15 @@ ConnRelease(r) ==
                        /\ cexp' = [cexp EXCEPT ![c] = IF Expiry = NoExpiry THEN NoExpiry ELSE clock + Expiry]
                   ELSE UNCHANGED <<cfg, cst, cexp>>
              /\ UNCHANGED <<cfg, cstr, cexch>>
+          \/ \* DEVIATION MuxIdleWhileUsersWait (the code): the connection looks only at the streams
+             \* that are REGISTERED; a request that has passed the ACTIVE gate and still waits for
+             \* the init lock / a stream slot is not, so the connection reports IDLE (evictable,
+             \* expirable) while that request is about to use it
+             /\ Dev("MuxIdleWhileUsersWait") /\ cst[c] = "active"
+             /\ others # {} /\ \A x \in others : pc[x] = "send" /\ c \notin sent[x]
+             /\ cst' = [cst EXCEPT ![c] = "idle"]
+             /\ cexp' = [cexp EXCEPT ![c] = IF Expiry = NoExpiry THEN NoExpiry ELSE clock + Expiry]
+             /\ UNCHANGED <<cfg, cstr, cexch>>
           \/ \* a connection the peer has terminated (GOAWAY) closes itself when its last stream ends
              /\ others = {} /\ cst[c] = "active" /\ cerr[c]
              /\ cst' = [cst EXCEPT ![c] = "closed"]
